@@ -35,7 +35,8 @@ RULE = ("refine: 1-8 hits per gene (1-2 genes) over 2-4 profiles with model leng
         "plus shapes built relative to an earlier hit (equal start, nested, chain overlapping by margin-1/margin/"
         "margin+1, same-profile fragment around the 1.5 x model merge limit, completeness boundary), scores from "
         "{10,20,30,40} / rising / distinct, both neighbour modes, hsps spread over 1..n QueryResult objects; plus "
-        "exhaustive sweep of all sets of <= 2 (quick) / <= 3 (thorough) hits on the grid {0,5,10,20,30,50}. "
+        "exhaustive sweep of all sets of <= 2 (quick, 90 grid hits) / <= 3 (thorough, 135 grid hits: 3 profiles x 15 "
+        "intervals x 3 scores) hits on the grid {0,5,10,20,30,50}, both modes, all orders. "
         "hmmer: 1-8 HmmerHit objects, 2-4 identifiers with cutoffs {10,20,25}, overlap_limit in {1,5,10,20}. "
         "filter: 1-3 genes x 1-6 profile hits, equivalence groups of 2-3 profiles, overlaps around the 20 "
         "position threshold. docking: 1-3 genes, domains around the 50 residue terminal windows. Every case is run "
@@ -89,7 +90,8 @@ def _k_merge_shrinks(clause, facts):
     if clause == "output-is-input-or-merge":
         return facts.get("shape") == "shrunk-merge"
     return clause == "drop-justified" and (facts.get("sticks_out_of_shrunk_merge") is True
-                                           or facts.get("tail_cut_by_same_profile_fragment") is True)
+                                           or facts.get("tail_cut_by_same_profile_fragment") is True
+                                           or facts.get("lost_to_shrunk_merge") is True)
 
 
 @findings.classifier("c13_overlap_after_intermediate_removed")
@@ -557,8 +559,12 @@ def run_filter_case(ctx, case):
         for stage, fn in (("after_results", "filter_results"), ("after_multiple", "filter_result_multiple"),
                           ("multiple_alone", "filter_result_multiple")):
             if _as_sets(other[stage][1]) != _as_sets(snap[stage][1]):
+                stage_tie = tie
+                if stage == "after_multiple":    # its input is what the competition left, in either order
+                    stage_tie = tie or _filter_tie_facts(snap["after_results"][1]) \
+                        or _filter_tie_facts(other["after_results"][1])
                 ctx.violate("permutation-invariant", {
-                    "fn": fn, "stage": stage, "tie_for_best": tie, "groups": groups,
+                    "fn": fn, "stage": stage, "tie_for_best": stage_tie, "groups": groups,
                     "chain_group_of_4": any(_chain_group_of_4(model_in[g]) for g in model_in
                                             if _as_sets(other[stage][1]).get(g) != _as_sets(snap[stage][1]).get(g)),
                     "first_order": hits, "first_result": _as_sets(snap[stage][1]),
@@ -678,7 +684,7 @@ def exhaustive_refine(ctx, max_hits):
     if max_hits <= 2:
         universe = G.exhaustive_refine_universe([("A20", 20), ("B50", 50), ("C100", 100)], [10.0, 20.0])
     else:
-        universe = G.exhaustive_refine_universe([("A20", 20), ("B50", 50)], [10.0, 20.0, 30.0])
+        universe = G.exhaustive_refine_universe([("A20", 20), ("B50", 50), ("C100", 100)], [10.0, 20.0, 30.0])
     lengths = {"A20": 20, "B50": 50, "C100": 100}
     index = 0
     done = 0
@@ -709,10 +715,10 @@ RUNNERS = {"refine": run_refine_case, "hmmer": run_hmmer_case, "filter": run_fil
 def run(ctx):
     # random part first (so that every function is observed even if the sweep eats the budget), reserving
     # a share of the time budget for the exhaustive sweep
-    plan = [("refine", G.refine_case, ctx.quota(5000, 1000000)),
-            ("hmmer", G.hmmer_case, ctx.quota(1500, 250000)),
-            ("filter", G.filter_case, ctx.quota(1500, 250000)),
-            ("docking", G.docking_case, ctx.quota(300, 20000))]
+    plan = [("refine", G.refine_case, ctx.quota(8000, 1000000)),
+            ("hmmer", G.hmmer_case, ctx.quota(2500, 250000)),
+            ("filter", G.filter_case, ctx.quota(2500, 250000)),
+            ("docking", G.docking_case, ctx.quota(400, 20000))]
     reserve = 0.25 * ctx.budget_s
     shares = {"refine": 0.45, "hmmer": 0.15, "filter": 0.12, "docking": 0.03}
     for name, gen, count in plan:
